@@ -80,7 +80,7 @@ class Analyzer:
             f = e.func
             fname = f.id if isinstance(f, ast.Name) else (f.attr if isinstance(f, ast.Attribute) else None)
             args = list(e.args) + [k.value for k in e.keywords]
-            arg_dyn = any(self.kind(a) == "dynamic" for a in args)
+            arg_dyn = any([self.kind(a) == "dynamic" for a in args])
             if fname in ("isinstance", "len", "callable", "hasattr", "type", "issubclass"):
                 return "static"
             if isinstance(f, ast.Name) and f.id in HOST_FUNCS and arg_dyn:
@@ -117,9 +117,9 @@ class Analyzer:
         if isinstance(e, (ast.BinOp,)):
             return "dynamic" if "dynamic" in (self.kind(e.left), self.kind(e.right)) else "static"
         if isinstance(e, (ast.Tuple, ast.List, ast.Set)):
-            return "dynamic" if any(self.kind(x) == "dynamic" for x in e.elts) else "static"
+            return "dynamic" if any([self.kind(x) == "dynamic" for x in e.elts]) else "static"
         if isinstance(e, ast.Dict):
-            return "dynamic" if any(self.kind(x) == "dynamic" for x in list(e.values)) else "static"
+            return "dynamic" if any([self.kind(x) == "dynamic" for x in list(e.values)]) else "static"
         if isinstance(e, ast.Starred):
             return self.kind(e.value)
         if isinstance(e, (ast.ListComp, ast.GeneratorExp, ast.SetComp, ast.DictComp)):
@@ -139,7 +139,7 @@ class Analyzer:
         if isinstance(e, ast.JoinedStr):
             return "static"
         if isinstance(e, ast.Slice):
-            return "dynamic" if any(self.kind(x) == "dynamic" for x in (e.lower, e.upper, e.step) if x is not None) else "static"
+            return "dynamic" if any([self.kind(x) == "dynamic" for x in (e.lower, e.upper, e.step) if x is not None]) else "static"
         return "dynamic"
 
     def test(self, e, what):
